@@ -122,8 +122,9 @@ var _ *openfgav1.Userset
 //@   requires wg != nil && wg.nodes[nodeID] != nil && wfEdges(wg.edges[nodeID])
 //@   requires forall i int, k string :: 0 <= i && i < len(wg.edges[nodeID]) && has(wg.edges[nodeID][i].weights, k) ==> 0 <= wg.edges[nodeID][i].weights[k] && wg.edges[nodeID][i].weights[k] <= Infinite
 //@   ensures error_is_invalid_model: err != nil ==> wraps(err, ErrInvalidModel)
-//@   ensures rejects_iff_no_common_type: (err != nil) <==> ((len(old(wg.edges[nodeID])) == 0 && !terminalKind(old(wg.nodes[nodeID])))
-//@          || !(exists k string :: forall i int :: 0 <= i && i < len(old(wg.edges[nodeID])) ==> has(old(old(wg.edges[nodeID])[i].weights), k)))
+//@   ensures rejects_no_edge: len(old(wg.edges[nodeID])) == 0 && !terminalKind(old(wg.nodes[nodeID])) ==> err != nil
+//@   ensures accepted_has_common_type: err == nil && len(old(wg.edges[nodeID])) > 0 ==> (exists k string :: forall i int :: 0 <= i && i < len(old(wg.edges[nodeID])) ==> has(old(old(wg.edges[nodeID])[i].weights), k))
+//@   ensures rejected_has_no_common_type: err != nil && len(old(wg.edges[nodeID])) > 0 ==> (forall k string :: exists i int :: 0 <= i && i < len(old(wg.edges[nodeID])) && !has(old(old(wg.edges[nodeID])[i].weights), k))
 //@   ensures keys_are_intersection: err == nil ==> (forall k string :: has(old(wg.nodes[nodeID]).weights, k)
 //@                              <==> (forall i int :: 0 <= i && i < len(old(wg.edges[nodeID])) ==> has(old(old(wg.edges[nodeID])[i].weights), k)))
 //@   ensures value_is_upper_bound: err == nil ==> (forall k string, i int :: 0 <= i && i < len(old(wg.edges[nodeID])) && has(old(wg.nodes[nodeID]).weights, k)
@@ -133,3 +134,14 @@ var _ *openfgav1.Userset
 //@   loop 1 invariant forall k string :: has(weights, k) <==> ($i > 0 && (forall i int :: 0 <= i && i < $i ==> has(edges[i].weights, k)))
 //@   loop 1 invariant forall k string, i int :: 0 <= i && i < $i && has(weights, k) ==> edges[i].weights[k] <= weights[k]
 //@   loop 1 invariant forall k string :: has(weights, k) ==> 0 <= weights[k] && weights[k] <= Infinite
+//@   -- loop 1.1 copies the first edge (index 0)
+//@   loop 1.1 invariant fresh(weights) && weights != nil && $i_1 == 0
+//@   loop 1.1 invariant forall k string :: has(weights, k) <==> $visited[k]
+//@   loop 1.1 invariant forall k string :: $visited[k] ==> has(edge.weights, k) && weights[k] == edge.weights[k]
+//@   -- loop 1.2 ranges over the result itself and deletes the keys the current edge lacks
+//@   loop 1.2 invariant fresh(weights) && weights != nil && $i_1 > 0
+//@   loop 1.2 invariant forall k string :: has(weights, k) ==> (forall i int :: 0 <= i && i < $i_1 ==> has(edges[i].weights, k))
+//@   loop 1.2 invariant forall k string :: (forall i int :: 0 <= i && i < $i_1 ==> has(edges[i].weights, k)) && !(has(weights, k)) ==> $visited[k] && !has(edge.weights, k)
+//@   loop 1.2 invariant forall k string :: $visited[k] && has(weights, k) ==> has(edge.weights, k) && edge.weights[k] <= weights[k]
+//@   loop 1.2 invariant forall k string, i int :: 0 <= i && i < $i_1 && has(weights, k) ==> edges[i].weights[k] <= weights[k]
+//@   loop 1.2 invariant forall k string :: has(weights, k) ==> 0 <= weights[k] && weights[k] <= Infinite
